@@ -509,14 +509,14 @@ func ruleSyncMetaPaths(w *core.World, r *core.Report) {
 			if s.Common().IsInvoke() && s.Method == "SetRunId" {
 				t := core.TypeName(s.Common().Value.Type())
 				if strings.HasSuffix(t, "syncer.Channel") {
-					chID = p.Resolve(s.Args()[0])
+					chID = s.Args()[0]
 				} else if strings.HasSuffix(t, "syncer.Output") {
-					outID = p.Resolve(s.Args()[1])
+					outID = s.Args()[1]
 				}
 			}
 		}
 		isReplyID := fieldLoad(sOff, "RunId")
-		if chID == nil || outID == nil || !isReplyID(chID) || !isReplyID(outID) {
+		if chID == nil || outID == nil || !p.ResolvesTo(chID, isReplyID) || !p.ResolvesTo(outID, isReplyID) {
 			fail("one-id", "cache and target bookkeeping must both be re-keyed with the reply's replication id", ret.Pos())
 		}
 		if !full {
@@ -1107,9 +1107,40 @@ func ruleStartupKeepsCheckpointId(w *core.World, r *core.Report) {
 				call = y
 			case *ssa.Extract:
 				call, _ = y.Tuple.(*ssa.Call)
+			case *ssa.UnOp:
+				// a variable that a helper fills through a pointer it was handed
+				if al := core.Cell(y.X); al != nil && y.Op == token.MUL && depth < 3 {
+					var refs []ssa.Instruction
+					for _, alias := range core.Aliases(al) {
+						if rr := alias.Referrers(); rr != nil {
+							refs = append(refs, *rr...)
+						}
+					}
+					for _, ref := range refs {
+						ci, isCall := ref.(*ssa.Call)
+						if !isCall {
+							continue
+						}
+						h := ci.Call.StaticCallee()
+						if h == nil || len(h.Blocks) == 0 {
+							continue
+						}
+						off := len(ci.Call.Args) - len(h.Params)
+						for k, a := range ci.Call.Args {
+							if core.Cell(a) != al || k-off < 0 || off < 0 {
+								continue
+							}
+							for _, in := range core.OwnInstrs(h) {
+								if st, isSt := in.(*ssa.Store); isSt && st.Addr == ssa.Value(h.Params[k-off]) && dependsOnHolder(st.Val, depth+1) {
+									found = true
+								}
+							}
+						}
+					}
+				}
 			}
 			if call == nil {
-				return true
+				return !found
 			}
 			nm := core.ResolveCall(call).Name
 			if strings.HasSuffix(nm, "checkpoint.GetCheckpointHash") {
